@@ -16,6 +16,9 @@ pub enum Variant {
     RemovedConstraintOnly,
     Maximize,
     NonBinary { id: u64, kind: i32 },
+    /// an extra variable (id 9) of a non-binary kind that the objective does not use; optionally
+    /// mentioned by a removed constraint. The objective is still a function of binaries only.
+    UnusedNonBinary { kind: i32, in_removed: bool },
 }
 
 #[derive(Clone, Debug, Serialize, Deserialize)]
@@ -37,6 +40,16 @@ fn build(case: &Case) -> InstRep {
             parameters: vec![],
         }),
         Variant::Maximize => inst.sense = SENSE_MAX,
+        Variant::UnusedNonBinary { kind, in_removed } => {
+            vars.push(VarRep::new(9, *kind, Some((0.0, 3.0))));
+            if *in_removed {
+                inst.removed.push(RemRep {
+                    constraint: ConRep::new(4, LE_ZERO, Some(FnRep::Lin { terms: vec![(case.binary_ids[0], 1.0), (9, 1.0)], c: -2.0 })),
+                    reason: "relaxed".into(),
+                    parameters: vec![],
+                });
+            }
+        }
         Variant::NonBinary { id, kind } => {
             for v in vars.iter_mut() {
                 if v.id == *id {
@@ -83,7 +96,7 @@ pub fn check_case(l: &mut Local, case: &Case) {
         });
         all > 0
     };
-    let must_refuse = !matches!(case.variant, Variant::Base | Variant::RemovedConstraintOnly);
+    let must_refuse = !matches!(case.variant, Variant::Base | Variant::RemovedConstraintOnly | Variant::UnusedNonBinary { .. });
     if !poly.is_zero() {
         l.nontrivial += 1;
     }
@@ -98,7 +111,7 @@ pub fn check_case(l: &mut Local, case: &Case) {
             format!("as_pubo_format succeeded although export must be refused ({:?})", case.variant),
         ),
         Ok(Err(_)) if must_refuse => l.outcome(&"refused"),
-        Ok(Err(e)) => l.violation("pubo/refused-valid-instance", || json!(case), format!("as_pubo_format failed on an unconstrained binary minimisation instance: {e}")),
+        Ok(Err(e)) => l.violation(&format!("pubo/refused-valid-instance/{}", variant_tag(&case.variant)), || json!(case), format!("as_pubo_format failed on an unconstrained binary minimisation instance: {e}")),
         Ok(Ok(entries)) => {
             for (k, v) in &entries {
                 if k.windows(2).any(|w| w[0] >= w[1]) {
@@ -163,7 +176,7 @@ pub fn check_case(l: &mut Local, case: &Case) {
             "as_qubo_format succeeded although a term involves more than two distinct variables".into(),
         ),
         Ok(Err(_)) if must_refuse || cubic_term || any_zero_cubic => l.outcome(&"refused"),
-        Ok(Err(e)) => l.violation("qubo/refused-valid-instance", || json!(case), format!("as_qubo_format failed on a quadratic unconstrained binary minimisation instance: {e}")),
+        Ok(Err(e)) => l.violation(&format!("qubo/refused-valid-instance/{}", variant_tag(&case.variant)), || json!(case), format!("as_qubo_format failed on a quadratic unconstrained binary minimisation instance: {e}")),
         Ok(Ok((entries, offset))) => {
             for ((i, j), v) in &entries {
                 if i > j {
@@ -254,6 +267,8 @@ fn variant_tag(v: &Variant) -> &'static str {
         Variant::ActiveConstraint => "active-constraint",
         Variant::RemovedConstraintOnly => "removed-constraint-only",
         Variant::Maximize => "maximize",
+        Variant::UnusedNonBinary { in_removed: false, .. } => "unused-non-binary-variable",
+        Variant::UnusedNonBinary { in_removed: true, .. } => "non-binary-variable-in-removed-constraint",
         Variant::NonBinary { kind, .. } => match *kind {
             KIND_INTEGER => "integer-variable",
             KIND_CONTINUOUS => "continuous-variable",
@@ -335,6 +350,11 @@ pub fn run(ctx: &Ctx) -> Finish {
         for v in [Variant::ActiveConstraint, Variant::Maximize, Variant::RemovedConstraintOnly] {
             check_case(l, &Case { objective: f.clone(), binary_ids: vec![1, 2, 7], variant: v });
         }
+        for kind in [KIND_INTEGER, KIND_CONTINUOUS, 4, 5, 0] {
+            for in_removed in [false, true] {
+                check_case(l, &Case { objective: f.clone(), binary_ids: vec![1, 2, 7], variant: Variant::UnusedNonBinary { kind, in_removed } });
+            }
+        }
         let nz: BTreeSet<u64> = nonzero_term_sets(f).into_iter().flatten().collect();
         for id in nz {
             for kind in [KIND_INTEGER, KIND_CONTINUOUS, 4, 5, 0] {
@@ -365,7 +385,7 @@ pub fn run(ctx: &Ctx) -> Finish {
     });
     Finish {
         level: "model_checking",
-        rule: "every objective message of the C01 representation alphabet over 3 binary variables (all variants, repeated ids inside monomials, x^2, cancelling terms, split constants, zeros) and deterministic all-monomial families for n = 4..12, degree <= 4; PUBO and QUBO dictionaries checked on ALL 2^n assignments against the exact objective, keys canonical, no zero coefficient stored; every refusal condition (active constraint, maximise, used integer / continuous variable at each position, >2 distinct variables for QUBO) on every base; a removed constraint alone must not cause refusal".into(),
+        rule: "every objective message of the C01 representation alphabet over 3 binary variables (all variants, repeated ids inside monomials, x^2, cancelling terms, split constants, zeros) and deterministic all-monomial families for n = 4..12, degree <= 4; PUBO and QUBO dictionaries checked on ALL 2^n assignments against the exact objective, keys canonical, no zero coefficient stored; every refusal condition (active constraint, maximise, used integer / continuous variable at each position, >2 distinct variables for QUBO) on every base; a removed constraint alone, a defined non-binary variable the objective does not use, and such a variable mentioned only by a removed constraint must not cause refusal".into(),
         bounds: json!({"n_small": 3, "n_large": "4..=12", "degree_max": 4, "assignments": "all 2^n"}),
         exhaustive: true,
     }
